@@ -43,6 +43,9 @@ pub enum OpKind {
     Resize,
     CloneOp,
     T(Trans),
+    /// the same transition without `.unwrap()`: the call may return Err (locking pages that are
+    /// currently no-access is refused by the OS) but must not fault
+    TNoUnwrap(Trans),
     UseAfter(Trans),
 }
 
@@ -190,6 +193,10 @@ pub fn expect(s: State, k: Kind, op: OpKind) -> Expect {
             }
         }
         T(t) => trans_allowed(s, t),
+        TNoUnwrap(t) => match trans_allowed(s, t) {
+            Expect::Permitted { .. } => Expect::Permitted { run: true },
+            _ => Expect::NotApplicable,
+        },
         UseAfter(t) => match trans_allowed(s, t) {
             Expect::Permitted { .. } => Expect::Forbidden,
             _ => Expect::NotApplicable,
@@ -237,6 +244,7 @@ fn op_code(op: OpKind) -> Vec<String> {
         Resize => vec!["r.resize(64, 0);".into()],
         CloneOp => vec!["let _c = r.clone();".into()],
         T(t) => vec![format!("let _r2 = r.{}().unwrap();", trans_code(t))],
+        TNoUnwrap(t) => vec![format!("let _r2 = r.{}();", trans_code(t))],
         UseAfter(t) => vec![format!("let _r2 = r.{}().unwrap();", trans_code(t)), "drop(r);".into()],
     }
 }
@@ -312,6 +320,9 @@ pub fn all_ops() -> Vec<OpKind> {
     }
     for t in [Trans::Lock, Trans::Unlock, Trans::ToRO, Trans::ToRW, Trans::ToNA] {
         v.push(UseAfter(t));
+    }
+    for t in [Trans::Lock, Trans::Unlock, Trans::ToRO, Trans::ToRW, Trans::ToNA] {
+        v.push(TNoUnwrap(t));
     }
     v
 }
